@@ -4,14 +4,14 @@ from __future__ import annotations
 
 import ast
 
-from sa.cfg import all_paths_pass, dominators, reachable, reaches, specialize
+from sa.cfg import all_paths_pass, dominators, reachable, reaches, specialize, test_atoms
 from sa.db import AnalysisError, bind_args, dotted, src, walk_local
 from sa.flow import defs_reaching, reaching_defs
 from sa.model import contains, enclosing, execute_impl_funcs, superstep_funcs
 from sa.variants import Variant, replace_once, sub_first, sub_once
 
 from .c03 import check_ready_conjunction
-from .common import call_names
+from .common import call_names, vars_from_call
 
 ID = "C01"
 EXPLANATION = (
@@ -43,6 +43,7 @@ def run(ctx) -> None:
     rep.rule("C01.R4", "first production of a name advances its version", floor=1)
     rep.rule("C01.R5", "tuple returns are unpacked positionally after a length check", floor=2)
     rep.rule("C01.R6", "a node records the input versions of the snapshot it actually consumed", floor=4)
+    rep.rule("C01.R7", "signature defaults are looked up under the current (renamed) parameter name; same-call renames do not chain", floor=4)
 
     gvs = db.func("runners._shared.helpers.get_value_source")
     cfg = ctx.cfg(gvs)
@@ -169,6 +170,29 @@ def run(ctx) -> None:
 
     check_versions_from_snapshot(ctx, "C01.R6")
 
+    # ---- R7 ---------------------------------------------------------------------
+    # the DEFAULT source: signature defaults are looked up under the parameter's current name
+    from .c06 import check_batch_isolation
+
+    bfm = db.func("nodes._callable._build_forward_rename_map")
+    cm = db.cls("nodes._callable.CallableMixin")
+    dflt = cm.methods.get("defaults")
+    if dflt is None:
+        raise AnalysisError("CallableMixin.defaults vanished")
+    uses_map = [v for v in vars_from_call(db, dflt, {bfm.name})]
+    keyed = False
+    for n in ast.walk(dflt.node):
+        if isinstance(n, ast.DictComp) and isinstance(n.key, ast.Call) and isinstance(n.key.func, ast.Attribute) and n.key.func.attr == "get" and isinstance(n.key.func.value, ast.Name) and n.key.func.value.id in uses_map:
+            keyed = True
+        if isinstance(n, ast.Assign) and isinstance(n.targets[0], ast.Subscript) and any(isinstance(x, ast.Name) and x.id in uses_map for x in ast.walk(n.targets[0].slice)):
+            keyed = True
+    rep.add("C01.R7", f"{dflt.qname}:keyed-by-current-name", keyed, dflt.loc(), "the defaults table is keyed through the forward rename map (current names)" if keyed else "the defaults table is not keyed through the forward rename map: a renamed parameter's signature default is lost or attached to another name")
+    for mname in ("has_default_for", "get_default_for"):
+        m = cm.methods.get(mname)
+        ok = m is not None and any(isinstance(x, ast.Attribute) and x.attr == "defaults" for x in walk_local(m.node))
+        rep.add("C01.R7", f"CallableMixin.{mname}:reads-defaults-table", ok, m.loc() if m else cm.loc(), "looks the current name up in the defaults table" if ok else "does not consult the defaults table keyed by current names")
+    check_batch_isolation(ctx, "C01.R7", (bfm,))
+
     # ---- R5 ---------------------------------------------------------------------
     wo = db.func("runners._shared.helpers.wrap_outputs")
     from sa.pattern import solve
@@ -182,6 +206,32 @@ def run(ctx) -> None:
     rep.add("C01.R5", f"{wo.qname}:positional-unpack", okz and chk, wo.loc(), "multi-output: length check, then zip(data_outputs, result)" if okz and chk else "tuple returns are not unpacked positionally onto the data output names after a length check")
     single = bool(solve(["_D = node.data_outputs", "{_D[0]: result}"], wo.node))
     rep.add("C01.R5", f"{wo.qname}:single-output", single, wo.loc(), "single output: the returned object is stored as it is" if single else "a single data output is no longer stored as the returned object")
+
+
+def check_bound_class_from_bound_tables(ctx, rule: str) -> None:
+    """A value classified BOUND (shared, never copied) is read from a bind() table under the key
+    that was just tested — everything else a wrapper exposes (inner signature defaults) must fall
+    through to the DEFAULT class, which is deep-copied per run exactly as in the flat graph."""
+    db, rep = ctx.db, ctx.rep
+    gvs = db.func("runners._shared.helpers.get_value_source")
+    cfg = ctx.cfg(gvs)
+    dom = dominators(cfg.entry)
+    n = 0
+    for r in [x for x in cfg.nodes if x.kind == "stmt" and isinstance(x.ast, ast.Return) and _classify_return(x.ast) == "BOUND"]:
+        n += 1
+        v = r.ast.value.elts[1] if len(r.ast.value.elts) == 2 else None
+        ok = isinstance(v, ast.Subscript) and isinstance(v.value, ast.Attribute) and v.value.attr == "bound" and src(v.value).endswith("inputs.bound")
+        why = "value read from a bind() table"
+        if ok:
+            want = f"{src(v.slice)} in {src(v.value)}"
+            tested = any(t.kind == "test" and t.ast is not None and any(src(a) == want for a in test_atoms(t.ast)) and any(l == "T" and (x is r or x in dom.get(r, set())) for x, l, _ in t.succ) for t in dom.get(r, set()))
+            if not tested:
+                ok, why = False, f"not guarded by the membership test '{want}'"
+        else:
+            why = f"'{src(v) if v is not None else '?'}' is not a bind() table entry: signature defaults surfaced by a wrapper would be shared between runs instead of copied (nested != flat)"
+        rep.add(rule, f"{gvs.qname}:BOUND-from-bind-table@{n - 1}", ok, f"{gvs.module.rel}:{r.lineno}", why)
+    if n < 2:
+        raise AnalysisError("get_value_source: fewer than two BOUND returns")
 
 
 def _k(lst, x) -> int:
